@@ -1,5 +1,7 @@
 import Dashu.Proofs.Text.Grammar
 import Dashu.Proofs.Text.BytesDecode
+import Dashu.Proofs.Text.CapacityParse
+import Dashu.Proofs.Text.ChunksWord
 /-
   C07 — Integer text and byte encodings round-trip and match the reference digits.
 
@@ -130,6 +132,38 @@ theorem print_parse_round_trip_unsigned (W : Nat) (hW : 36 < 2 ^ W) (r n : Nat) 
     parseRadix W false (fmtModel W (.inRadix r) { alt := up, plus := plus } (n : Int)) r = .ok (n : Int) :=
   model_round_trip_unsigned W hW r n up plus hv
 
+-- ======================================================================= fixed-size buffers
+
+/-- **soundness of the length shortcut of `PreparedLarge::new`**: the squaring loop may stop as soon
+    as `2 * prev.len() - 1 > number.len()`, because then `prev * prev > number` (word lengths) -/
+theorem tower_length_shortcut_sound (W : Nat) (hW : 1 ≤ W) (prev n : Nat) (hp : prev ≠ 0)
+    (h : 2 * wordLen W prev - 1 > wordLen W n) : n < prev * prev :=
+  length_shortcut_sound W hW prev n hp h
+
+/-- **no fixed-size buffer of the printers is ever overrun**: with `PreparedWord.digits`,
+    `PreparedDword.digits`, the `[Word; 16]` chunk buffer of `repr_to_chunk_buffer`, `low_groups`, the
+    `groups` array and the `assert_eq!(buffer_len, 0)` of `write_chunk`, and the power-of-two digit
+    arrays modelled as bounded arrays (`Model/Text/Capacity.lean`), printing never panics and yields
+    the digits of the unbounded model — every even word size, every radix, every number.  For the
+    divide-and-conquer printer this needs the top part left by the tower to be below
+    `range_per_word^16`, which follows from the length shortcut above. -/
+theorem printer_buffers_never_overrun (W : Nat) (hW : 2 ≤ W) (hev : 2 ∣ W) (r : Nat) (hr : 2 ≤ r)
+    (hrW : r < 2 ^ W) (n : Nat) : rawDigitsC W r n = .ok (rawDigits W r n) :=
+  rawDigitsC_eq W hW hev r hr hrW n
+
+/-- the `DigitWriter` (32-byte buffer, flushed when full) delivers exactly the converted digits, in
+    order, for any sequence of `write` calls, without indexing outside its buffer -/
+theorem digit_writer_sound (W : Nat) (hW : 8 ≤ W) (c : DigitCase) (pieces : List (List Nat)) :
+    digitWriterRun W c pieces = .ok (pieces.flatten.map (rawToAscii c)) :=
+  digitWriterRun_eq W hW c pieces
+
+/-- **the parsers never overflow a `Word`, never `push` beyond the allocated `Buffer` and never fail a
+    length assertion** (`parse_word`, `parse_chunk`, `parse_large_divide_conquer`,
+    `power_two::parse_word` / `parse_large`), for every byte string -/
+theorem parser_buffers_never_overrun (W r : Nat) (hr : 2 ≤ r) (hrW : r < 2 ^ W) (src : List Nat) :
+    parseCoreC W r src = .ok (if isPow2 r then parsePow2 W r src else parseNonPow2 W r src) :=
+  parseCoreC_eq W r hr hrW src
+
 -- ======================================================================= bytes and chunks
 
 /-- unsigned bytes: decoding the encoding returns the number; the encoding is minimal -/
@@ -172,6 +206,28 @@ theorem chunks_round_trip (n k : Nat) (hk : 1 ≤ k) :
     ofChunksSpec k (chunksSpec n k) = n ∧ (∀ c ∈ chunksSpec n k, c < 2 ^ k) ∧
     (chunksSpec n k).getLast? ≠ some 0 :=
   ⟨ofChunksSpec_chunksSpec n k hk, (chunksSpec_bounds n k hk).1, (chunksSpec_bounds n k hk).2⟩
+
+/-- **the chunk routines of convert.rs equal the positional specification**: `to_chunks` — inline
+    path, word-aligned shortcut (with the clamp of fix 49f0136) and general path (copy, mask,
+    `shr_in_place` on the words) — yields the base-`2^k` digits; `from_chunks` (`chunks_to_words`:
+    `shl_in_place` on the scratch buffer, `add_in_place` into a result buffer of
+    `max_len + (len − 1)·k + 1` words, which is always long enough and never loses a carry) yields
+    `Σ chunkᵢ·2^(i·k)` for word slices of any length; hence mutually inverse for every `k ≥ 1` -/
+theorem chunks_model (W n k : Nat) (hW : 1 ≤ W) (hk : 1 ≤ k) (chunks : List (List Nat))
+    (hc : ∀ c ∈ chunks, Dashu.Model.IsWords W c) :
+    toChunksW W n k = .ok (chunksSpec n k) ∧ toChunks W n k = .ok (chunksSpec n k) ∧
+    fromChunksW W k chunks = .ok (ofChunksSpec k (chunks.map (Dashu.Model.val W))) ∧
+    fromChunksW W k ((chunksSpec n k).map (wordsOf W)) = .ok n := by
+  refine ⟨toChunksW_eq W n k hW hk, toChunks_eq W n k hW hk, fromChunksW_eq W k hW hk chunks hc, ?_⟩
+  rw [fromChunksW_eq W k hW hk _ (by
+    intro c hc'
+    obtain ⟨x, _, rfl⟩ := List.mem_map.mp hc'
+    exact isWords_wordsOf W x hW)]
+  rw [List.map_map]
+  have : (chunksSpec n k).map (Dashu.Model.val W ∘ wordsOf W) = chunksSpec n k := by
+    conv_rhs => rw [← List.map_id (chunksSpec n k)]
+    apply List.map_congr_left; intro x _; exact val_wordsOf W x hW
+  rw [this, ofChunksSpec_chunksSpec n k hk]
 
 /-- `chunk_bits = 0` panics in both directions, as documented -/
 theorem chunks_zero_panics (W n : Nat) (cs : List Nat) :
